@@ -454,6 +454,7 @@ class ScriptRun:
             self.fail("monitor", monitor="reply-not-terminated", line=line, detail=reply[-40:])
         text = reply[:-1]
         kind, first = W.classify_reply(reply)
+        first = first or ""
         delta = calls_of(self.pool) - calls0
         if self.mode == "iso":
             self.stats["inv:" + str(delta)] += 1
@@ -466,7 +467,7 @@ class ScriptRun:
             if observe_quiet(self.pool) != before or (self.mode == "iso" and delta != 0):
                 self.fail("monitor", monitor="rejected-line-altered-pool", line=line,
                           detail={"before": before, "after": observe_quiet(self.pool), "invocations": delta})
-            got = (kind, None) if kind == "help" else (kind, first)
+            got = (kind, None) if kind == "help" else (kind, first or None)
             want = ("help", None) if v["kind"] == "help" else ("error", v["err"])
             if got != want:
                 self.fail("diff", what="verdict", line=line, model=v, impl=[kind, first, text[:160]])
@@ -545,7 +546,11 @@ class ScriptRun:
             self.dead[s] = True
             return
         if want0 is None:
-            raise W.HarnessTimeout(f"oracle for {line!r} never finished")
+            # the session answered although the same call made directly (or by a fresh session) is still waiting
+            self.fail("monitor", monitor="effect-differs-from-direct-call" if self.mode == "tv" else
+                      "effect-depends-on-session-history", line=line, detail={"reply": got, "oracle": "still waiting"})
+            await self.drop_pending(exp)
+            return
         # with lines queued behind the waiting command the session answers them afterwards, in order
         want = [want0]
         if len(got) != 1 + len(queued):
@@ -614,7 +619,13 @@ class ScriptRun:
             self.sess = []
             for i in range(n):
                 s = W.MemSession(self.pool)
-                got = await s.handshake(W.hello_line(case["width"]))
+                try:
+                    got = await s.handshake(W.hello_line(case["width"]))
+                except W.HarnessTimeout:
+                    raise
+                except Exception as e:
+                    self.fail("monitor", monitor="handshake-crashed", detail=repr(e))
+                    return
                 if got != [str(self.pool) + "\n"]:
                     self.fail("monitor", monitor="handshake-reply", detail=got)
                 s.start()
